@@ -299,6 +299,30 @@ func c18RunMsg(t *testing.T, st *vstat.Stats, p c18Msg) (v *viol) {
 				return
 			}
 		}
+		// a malformed message that was *accepted* may be stored and bite later: the genuine continuation of the
+		// ceremony (the next messages of the trace addressed to this node) must be handled without a crash as well
+		if perr == nil {
+			cont := 0
+			for _, later := range tr.Steps {
+				if later.K <= step.K || !later.ForMe || cont >= 8 {
+					continue
+				}
+				cont++
+				func() {
+					defer func() {
+						if r := recover(); r != nil {
+							pan = fmt.Sprintf("%v | %s", r, trimStack(debug.Stack()))
+						}
+					}()
+					_ = nd.Svc.ProcessMessage(later.Msg)
+				}()
+				if pan != "" {
+					v = violf("node-panic-later:"+later.Msg.Event, "%s was accepted; %d genuine message(s) later, %s from %s makes ProcessMessage panic: %s", desc, cont, later.Msg.Event, later.Msg.SenderAddr, clip(pan, 500))
+					return
+				}
+			}
+			st.ClassN("accepted-mutant:genuine-messages-continued", cont)
+		}
 		st.Class(map[bool]string{true: "rejected", false: "accepted"}[perr != nil])
 		for _, k := range applied {
 			st.Class("mut:" + k)
